@@ -24,8 +24,8 @@ static const char *plane(unsigned long c) { return c < 0x10000 ? "BMP" : c <= 0x
 /* strings that contain a value above U+10FFFF must be rejected by wcsnorm_s (NFD, NFC), wcsnorm_decompose_s and wcsfc_s, whichever operand
  * lies lower in memory (the library has one loop per operand order) and wherever the value sits in the string */
 static void range_strings(void) {
-    static const uint32_t BAD[] = {0x110000, 0x110005, 0x1FFFFF, 0x7FFFFFFF}; char obs[240];
-    for (unsigned bi = 0; bi < 4; bi++) for (int pos = 0; pos < 3; pos++) for (int order = 0; order < 2; order++) for (int fn = 0; fn < 4; fn++) {
+    static const uint32_t BAD[] = {0x110000, 0x110005, 0x1FFFFF, 0x7FFFFFFF, 0x80000000u, 0x80000041u, 0xFFFFFFFFu, 0xFFFF0130u}; char obs[240];   /* the last four are negative as wchar_t */
+    for (unsigned bi = 0; bi < 8; bi++) for (int pos = 0; pos < 3; pos++) for (int order = 0; order < 2; order++) for (int fn = 0; fn < 4; fn++) {
         wchar_t str[4] = {L'a', 0xC5, L'b', 0}; str[pos] = (wchar_t)BAD[bi];
         wchar_t *d = place_end(order ? 1 : 0, 24 * sizeof(wchar_t)), *sp = place_end(order ? 0 : 1, sizeof str); memcpy(sp, str, sizeof str);
         for (int k = 0; k < 24; k++) d[k] = 0x7878;
